@@ -241,6 +241,10 @@ def run_script(run, case):
             pending = any(c.available() or c.rx for c in env.conns if not c.closed)
             dead = any(c.eof() and not c.closed for c in env.conns)      # peer closed, client still holds the socket
             m2 = {'dir': REQ, 'fc': 3, 'address': 4242, 'count': 2}
+            gap = case.get('gap')
+            if gap:
+                # the application pauses between two calls: a fraction or a small multiple of the serial inter-frame interval
+                env.clock.now += gap * (getattr(client, 'silent_interval', None) or 0.004)
             try:
                 res2 = client.execute(A.build(m2, unit=UNIT))
                 cls2 = classify_result(res2, P.conformant_reply(P.lazy_regfile(), m2), None, UNIT, None, framing)
@@ -344,6 +348,8 @@ def run(run):
                 case = {'client': kind, 'cfg': cfg, 'script': list(names), 'm': m, 'bseed': idx, 'warm': warm}
                 if idx % 5 == 2 and cfg['retries'] >= 1:
                     case['via_defaults'] = True          # (retries=0 through Defaults is the recorded `or 1` finding either way)
+                if idx % 3 == 1:
+                    case['gap'] = (0.5, 1.2, 1.5, 1.9, 2.5, 10.0)[(idx // 3) % 6]
                 if idx % 7 == 4:
                     case['tid_start'] = 0xFFFF - (idx // 7) % 3
                     run.count('scripts_across_the_tid_wrap')
@@ -354,11 +360,51 @@ def run(run):
     # the UDP client's default configuration has no timeout at all
     if run.mine(0):
         udp_default_timeout(run)
+        history_time_stability(run)
     run.exhaustive = False
     run.floor('scripts per client kind (min)', min(run.counters.get('scripts:%s' % k, 0) for k in KINDS), 600 if run.shard is None else 30)
     run.floor('healthy follow-up transactions that succeeded', run.counters.get('followups_ok', 0), 2000 if run.shard is None else 100)
     run.floor('clean-region scripts', run.counters.get('clean_region_cases', 0), 1500 if run.shard is None else 80)
     repo.reset_globals()
+
+
+def history_time_stability(run):
+    """one client object, the same retried transaction five times in a row (two replies from a foreign unit, then the right one;
+    or two silent attempts, then the reply): with a deterministic peer every repetition takes the same virtual time and
+    transmits the same number of frames - what an earlier transaction needed must not make a later one slower"""
+    for kind in ('tcp', 'rtu', 'ascii', 'udp'):
+        for names in (['wrong-unit', 'wrong-unit', 'own'], ['none', 'none', 'own'], ['none', 'own']):
+            framing = IO.framing_of(kind)
+            import random
+            rr = random.Random(7)
+            script = [behaviour(n, framing, rr) for _ in range(5) for n in names]
+            peer = P.ScriptedPeer(framing, script=script, timeout=TIMEOUT)
+            env = IO.Env(peer)
+            repo.reset_globals()
+            times, sent, results = [], [], []
+            case = {'scenario': 'history-time', 'client': kind, 'script': names}
+            with IO.installed(env):
+                client = IO.make_client(kind, timeout=TIMEOUT, retries=3, retry_on_empty=True, retry_on_invalid=True)
+                client.connect()
+                for j in range(5):
+                    t0, i0 = env.clock.now, peer.i
+                    try:
+                        res = client.execute(A.build({'dir': REQ, 'fc': 3, 'address': 100 + j, 'count': 2}, unit=UNIT))
+                        results.append(type(res).__name__)
+                    except IO.StepWatchdog as e:
+                        results.append('STEP-WATCHDOG')
+                    except Exception as e:  # noqa
+                        results.append('raised %r' % (e,))
+                    times.append(round(env.clock.now - t0, 3))
+                    sent.append(peer.i - i0)
+            run.count('history_time_runs')
+            ok = max(times) <= times[0] * 1.05 + 0.05 and len(set(sent)) == 1
+            run.case(h64(('history-time', kind, tuple(names))), True,
+                     sample={'scenario': 'the same retried transaction five times on one client', 'client': kind, 'script': names, 'virtual_seconds': times, 'transmissions': sent,
+                             'verdict': 'stable' if ok else 'grows'}, sample_class=('history-time', kind))
+            if not ok:
+                run.violation('%s:history-dependent-time' % kind, case,
+                              'the same transaction (peer script %r) repeated on one client took %r virtual seconds with %r transmissions (results %r)' % (names, times, sent, results))
 
 
 def udp_default_timeout(run):
@@ -386,6 +432,9 @@ def udp_default_timeout(run):
 def replay(run, case):
     if case.get('scenario') == 'udp-default-timeout':
         udp_default_timeout(run)
+        return
+    if case.get('scenario') == 'history-time':
+        history_time_stability(run)
         return
     print('ok' if run_script(run, case) else 'differs')
     run.evaluations += 1
